@@ -69,10 +69,11 @@ class Report:
         self.rule_desc.setdefault(rule, desc)
         self.rule_counts.setdefault(rule, 0)
 
-    def ok(self, rule: str, what: str, nontrivial: bool = True, sample: bool = False) -> None:
-        """One obligation examined and discharged."""
+    def ok(self, rule: str, what: str, nontrivial: bool = True, sample: bool = False, points: int = 0) -> None:
+        """One obligation examined and discharged (``points`` = evaluated grid points behind it)."""
         self.evaluations += 1
         self.discharged += 1
+        self.points = getattr(self, "points", 0) + points
         self.rule_counts[rule] = self.rule_counts.get(rule, 0) + 1
         if nontrivial:
             self.nontrivial.add((rule, what))
@@ -190,6 +191,7 @@ class Report:
                 ),
                 "samples": self.samples[:20] or [{"note": "no obligations"}],
                 "exhaustive": True,
+                "evaluated_points": getattr(self, "points", 0),
                 "obligations": self.evaluations,
                 "discharged": self.discharged,
                 "per_rule_instances": dict(sorted(self.rule_counts.items())),
